@@ -318,3 +318,96 @@ func (r *Run) Finish() int {
 	}
 	return 0
 }
+
+
+// ---- shard export / import (child processes of one check) ----
+
+type shardState struct {
+	Evaluations  int64                       `json:"evaluations"`
+	Distinct     []uint64                    `json:"distinct"`
+	Samples      []any                       `json:"samples"`
+	SampleKeys   map[string]int              `json:"sample_keys"`
+	Cover        map[string]int64            `json:"cover"`
+	Tables       map[string]map[string]int64 `json:"tables"`
+	Extra        map[string]any              `json:"extra"`
+	ViolClasses  map[string]int              `json:"viol_classes"`
+	Inconclusive int64                       `json:"inconclusive"`
+	InconcNotes  []string                    `json:"inconc_notes"`
+	KnownHits    map[string]int64            `json:"known_hits"`
+	KnownWhat    map[string]string           `json:"known_what"`
+	Broken       []string                    `json:"broken"`
+}
+
+// ExportShard writes the run's state to path (used by a shard child instead of Finish).
+func (r *Run) ExportShard(path string) error {
+	r.mu.Lock()
+	defer r.mu.Unlock()
+	st := shardState{Evaluations: r.evaluations, Samples: r.samples, SampleKeys: r.sampleKeys, Cover: r.cover, Tables: r.tables, Extra: r.extra,
+		ViolClasses: r.violClasses, Inconclusive: r.inconclusive, InconcNotes: r.inconcNotes, KnownHits: r.knownHits, KnownWhat: r.knownWhat, Broken: r.broken}
+	for k := range r.distinct {
+		st.Distinct = append(st.Distinct, k)
+	}
+	b, err := json.Marshal(st)
+	if err != nil {
+		return err
+	}
+	return os.WriteFile(path, b, 0o644)
+}
+
+// ImportShard merges a shard's state into the parent run.
+func (r *Run) ImportShard(path string) error {
+	b, err := os.ReadFile(path)
+	if err != nil {
+		return err
+	}
+	var st shardState
+	if err := json.Unmarshal(b, &st); err != nil {
+		return err
+	}
+	r.mu.Lock()
+	defer r.mu.Unlock()
+	r.evaluations += st.Evaluations
+	for _, k := range st.Distinct {
+		r.distinct[k] = struct{}{}
+	}
+	for _, s := range st.Samples {
+		if len(r.samples) < 40 {
+			r.samples = append(r.samples, s)
+		}
+	}
+	for k, v := range st.Cover {
+		r.cover[k] += v
+	}
+	for t, cells := range st.Tables {
+		if r.tables[t] == nil {
+			r.tables[t] = map[string]int64{}
+		}
+		for c, v := range cells {
+			r.tables[t][c] += v
+		}
+	}
+	for k, v := range st.Extra {
+		r.extra[k] = v
+	}
+	for k, v := range st.ViolClasses {
+		r.violClasses[k] += v
+	}
+	r.inconclusive += st.Inconclusive
+	for _, n := range st.InconcNotes {
+		if len(r.inconcNotes) < 10 {
+			r.inconcNotes = append(r.inconcNotes, n)
+		}
+	}
+	for k, v := range st.KnownHits {
+		r.knownHits[k] += v
+		if _, ok := r.knownWhat[k]; !ok {
+			r.knownWhat[k] = st.KnownWhat[k]
+		}
+	}
+	for _, b := range st.Broken {
+		if len(r.broken) < 10 {
+			r.broken = append(r.broken, b)
+		}
+	}
+	return nil
+}
